@@ -15,7 +15,9 @@ from sim.ops import Skip, _sha
 
 def install(node):
     ext = node.ext
-    for k, v in list(globals().items()):
+    from sim import planner
+
+    for k, v in list(globals().items()) + [("xop_plan", planner.xop_plan)]:
         if k.startswith("xop_"):
             ext[k[4:]] = (lambda f: (lambda op: f(node, op)))(v)
 
